@@ -256,7 +256,7 @@ End Resolve.
 
 (* Which behaviour the DECIDING model has. false = the unchanged code (unguarded recursion).
    After the fix is applied to /repo the lead sets this to true (and marks the finding fixed). *)
-Definition c15_fixed_variant : bool := false.
+Definition c15_fixed_variant : bool := true.
 
 (* what the deciding model answers for one resolution: Ok r, or OutOfFuel = the Go process dies of stack overflow.
    Unfixed: decided by the detector (sound and complete for non-termination of `resolve`, ClassesElem.v). *)
